@@ -10,7 +10,7 @@ THEOREMS = ["GrpcProofs.C11." + t for t in (
     "status_never_changes", "newstream_result_never_changes", "every_stream_gets_a_status", "close_completes",
     "exactly_one_status", "status_code_legal", "stream_terminates_at_deadline", "blocked_newstream_returns_at_deadline",
     "blocked_newstream_returns_on_close", "frame_for_unknown_stream_is_ignored", "data_for_unknown_stream",
-    "unprocessed_can_flip_after_done")] + [
+    "unprocessed_can_flip_after_done", "decodeGrpcMessage_never_panics", "decodeLoop_length")] + [
     "GrpcProofs.Lemmas.ClientConn.mono_step", "GrpcProofs.Lemmas.ClientConn.inv_step", "GrpcProofs.Lemmas.ClientConn.Reach.inv"]
 DESIGN_REF = "DESIGN.md section 8, C11"
 TECHNIQUE = ("Lean 4: monotonicity relation + inductive invariant over a per-connection state machine of http2Client, each proved for "
@@ -21,6 +21,8 @@ TECHNIQUE = ("Lean 4: monotonicity relation + inductive invariant over a per-con
 LEVEL_TEXT = ("Machine-checked proof that for every frame sequence the framer can deliver (any frame types, fields, order, stream and "
               "connection errors), interleaved in every way with loopy, the RPC goroutines and Close, and followed by the connection "
               "going away: every stream ever opened ends with exactly one terminal outcome (never changed afterwards, legal code: 0..16 "
+              "chosen by the client or io.EOF with the trailers' status; the grpc-message percent-decoder, ported with explicit index "
+              "checks, never reads out of range; codes: 0..16 "
               "chosen by the client or io.EOF with the trailers' status), a returned NewStream keeps its result, RPCs react to their "
               "deadline at once, frames for unknown/removed streams are ignored. The model is diffed against the real transport after "
               "every op (all stream records, transport state, frames written); each case runs in a synctest bubble that must be empty "
@@ -40,7 +42,10 @@ TRUSTED = ["harness/synct/c_clientconn_test.go (peer, snapshot, bubble)", "lean/
 RULE = ("every way a stream can end (RST with each code, trailers / trailers-only with good, out-of-range and malformed grpc-status, "
         "non-gRPC responses with body, 1xx, END_STREAM without trailers, HEADERS in the middle, flow-control violation with and "
         "without padding, truncated header list, invalid header names, zero WINDOW_UPDATE, bad padding, cancel, deadline, GOAWAY, "
-        "Close, peer EOF, connection error) x reader/non-reader RPC x half-closed or not, each followed by more frames for the dead "
+        "Close, peer EOF, connection error; header VALUE grammars: grpc-message percent escapes (all strings of length <= 4 over "
+        "{%, hex digits of both cases, a non-hex byte}, longer random mixes of valid / invalid-hex / truncated escapes with their "
+        "prefixes), grpc-status and :status integers (signs, ranges, junk), -bin base64 (padding shapes), content-type prefixes — "
+        "each compared with the model incl. the decoded status message) x reader/non-reader RPC x half-closed or not, each followed by more frames for the dead "
         "stream; hold windows (stalled peer); random sequences over the whole frame grammar incl. malformed frames, CONTINUATION "
         "splits, unknown types, truncated input, 1-8 concurrent RPCs with deadlines, SETTINGS changes. Non-trivial = at least one "
         "stream was opened and at least one peer frame was delivered; distinct = distinct op list.")
@@ -54,6 +59,8 @@ def gen(rng, tier):
             yield Case("s_clienttransport", ops + ["end"], tag)
         for ops, tag in g.directed_hold(rng):
             yield Case("s_clienttransport", ops + ["end"], tag)
+    for ops, tag in g.header_value_cases(rng, {"quick": 60, "thorough": 3000, "search": 600}[tier]):
+        yield Case("s_clienttransport", ops, tag)
     for i in range(n):
         mcs = rng.choice([0, 1, 1, 2, 3]) if rng.random() < 0.2 else None
         mhl = rng.choice([10, 100, 5000]) if rng.random() < 0.06 else None
